@@ -4,6 +4,10 @@ import json, os, subprocess
 V = os.path.dirname(os.path.dirname(os.path.abspath(__file__)))
 
 CHECKS = {
+ "C08": dict(level="model_checking", design="DESIGN.md 3/C08",
+   technique="TLA+ binding relation (spec/Binding.tla) + TLC validation of every (signature, call) record executed by the real pipeline and of direct UnpackArgs calls (code->spec), exhaustive over the bounded domain",
+   text="The property's bounded domain is enumerated completely in the quick tier for <=2 positional/<=1 keyword-only parameters (72 signatures x 1280 call shapes) and by a 45% seeded sample of the full domain (280 signatures, <=4 positional arguments, '*' of length 0-3) in the thorough tier; each call is compiled and run by the real interpreter and TLC checks the recorded binding, value by value, against Binding!Bind (the Python 3 rule); UnpackArgs/UnpackPositionalArgs are driven directly over all specs of <=3 parameters x markers x 10 target types x call shapes x 11 argument kinds and checked against Binding!UnpackOK including the target-preservation rule.",
+   note="Trusted: TLC, the record encoding, Binding.tla as the statement of the rule (Bind was validated against CPython on 54k pairs during design). Argument values are distinct small integers so any mis-binding is visible."),
  "C13": dict(level="model_checking", design="DESIGN.md 3/C13",
    technique="TLA+ oracle (spec/Seqs.tla) + TLC validation of records produced by the real interpreter (code->spec)",
    text="Every case of a declared finite domain (exhaustive index/slice/search/split/strip/replace/list-method families over small receivers, plus seeded random receivers to length 40) is executed by the real pipeline and TLC checks each recorded result against the TLA+ definition of the operation in spec/Seqs.tla; the oracle is total on the domain, so any divergence of any case is reported.",
